@@ -97,7 +97,10 @@ def forward_check(H):
         step_i = z3.Int("step_int")
         cx.assume(step_i >= 0)
         w.attrs["step"] = z3.ToReal(step_i)
-        w.attrs["prvs_alpha"] = ATen(z3.Const("prvs_alpha", ArrS), [n], z3.Const("prvs_dtype", V.DtypeS), "numpy")
+        from tjv.pyvc.aten import Storage
+        # the stored weights are aggregator STATE: an in-place operation on (a view of) them is a frame violation
+        w.attrs["prvs_alpha"] = ATen(z3.Const("prvs_alpha", ArrS), [n], z3.Const("prvs_dtype", V.DtypeS), "numpy",
+                                     storage=Storage(is_input=True, label="state.prvs_alpha"))
         for f in SOLVER_FIELDS:
             w.attrs[f] = ATen(cx.fresh_const("stale_" + f, ArrS), [], P.F64, "cvxpy")
         J, (m, nn) = sym_matrix(cx, "J")
